@@ -212,3 +212,144 @@ Example ex_mutation :
                           (Some (Generic (NP 64) [Union [Named (NP id_int); Named (NP id_str)]]))] None None (Named (NP id_NoneType)) in
   parse_sig [] [] (print_sig (mkCtx false None) s) = Some s.
 Proof. vm_compute. reflexivity. Qed.
+
+(* ---------------------------------------------------------------- declarations and units ---------- *)
+(* Model: coq/Print/Decl.v (statement trees of token lines; print_const/print_alias/print_tparam/print_fsig/print_func/
+   print_cls/print_unit mirror PrintVisitor's declaration methods; parse_simple/parse_fsig/merge_funcs/parse_class/
+   parse_unit mirror pyi/parser.py's definition handling, function.py, codegen/function.py, classdef.py and
+   definitions.py's build_class/build_type_decl_unit/finalize_ast for what the printer emits).  Proofs:
+   coq/Print/DeclProofs.v. *)
+From PV Require Import Print.Decl Print.DeclProofs.
+
+(* one-line declarations *)
+Theorem parse_const_print : forall env c in_class k, wf_const env k = true ->
+  parse_simple env in_class (print_const c k) = Some (DConst (norm_const c k)).
+Proof. exact parse_simple_const. Qed.
+Print Assumptions parse_const_print.
+
+Theorem parse_alias_print_partial : forall env a, wf_alias env a = true ->
+  parse_simple env false (print_alias plain0 a) = Some (DAlias (norm_alias plain0 a)).
+Proof. exact parse_simple_alias. Qed.
+Print Assumptions parse_alias_print_partial.
+
+Theorem parse_tparam_print : forall env t, wf_tparam env t = true ->
+  parse_simple env false (print_tparam plain0 t) = Some (DTvar (norm_tparam plain0 t)).
+Proof. exact parse_simple_tparam. Qed.
+Print Assumptions parse_tparam_print.
+
+(* signatures WITH mutated-parameter lines, raise lines and the implicit mutation of a generic self (this removes
+   the simple_sig restriction of parse_sig_print_partial): any wf signature, any number of body lines *)
+Theorem parse_fsig_print : forall env scope c nm f, wf_fsig env scope c f = true ->
+  parse_fsig env nm (print_fsig c f) = Some (norm_fsig c nm f).
+Proof. exact parse_fsig_print_lemma. Qed.
+Print Assumptions parse_fsig_print.
+
+(* decorator lines + overloads: the def groups printed for any list of functions with distinct names merge back
+   into exactly the canonical functions *)
+Theorem merge_funcs_print : forall c fs,
+  (forall f, In f fs -> decos_ok c f = true /\ fn_sigs f <> []) -> NoDup (map fn_name fs) ->
+  merge_funcs (func_defs c fs) = Some (map (norm_func c) fs).
+Proof. exact DeclProofs.merge_funcs_print. Qed.
+Print Assumptions merge_funcs_print.
+
+(* a class of any size and nesting depth, read inside any suite *)
+Theorem parse_class_print : forall cl env scope nested ic X l, wf_cls env scope nested cl = true ->
+  suite_loop (parse_line env scope ic) (parse_class env scope) [] X = Some l ->
+  suite_loop (parse_line env scope ic) (parse_class env scope) [] (print_cls cl ++ X) = Some (DCls (norm_cls cl) :: l).
+Proof. exact class_reads_all. Qed.
+Print Assumptions parse_class_print.
+
+(* whole units: sections, blank lines, TypeVars in sorted order, aliases, constants, classes, functions *)
+Theorem parse_unit_print : forall u, wf_unit u = true -> parse_unit (print_unit u) = Some (norm_unit u).
+Proof. exact parse_unit_print_lemma. Qed.
+Print Assumptions parse_unit_print.
+
+(* The fixed-point statement  forall u, wf_unit u -> print_unit (norm_unit u) = print_unit u  is REFUTED: *)
+(* (g) a property whose getter returns a TypeVar stays a method; the reader keeps the `property` decorator AND sets
+   kind = PROPERTY, so the re-printed stub has two @property lines, which the reader itself rejects *)
+Definition w_prop_sig (ret : ty) : fsig := mkF (mkSig [mkParam id_self AnyT Regular false None] None None ret) [].
+Definition w_unit_prop2 : unit_ :=
+  mkU [mkTP 100 101 [] None] [] []
+      [mkCls 110 [] [] [] None [] [] [mkFn 120 [w_prop_sig (TParam 100)] KProp false false false []]] [].
+Theorem unit_second_generation_refuted : exists u u',
+  wf_unit u = true /\ parse_unit (print_unit u) = Some u' /\ parse_unit (print_unit u') = None.
+Proof. exists w_unit_prop2, (norm_unit w_unit_prop2). vm_compute. repeat split; reflexivity. Qed.
+Print Assumptions unit_second_generation_refuted.
+
+(* (h) a property whose getter is not parametrised is re-read as a constant  x: Annotated[int, 'property'] *)
+Definition w_unit_propconst : unit_ :=
+  mkU [] [] [] [mkCls 110 [] [] [] None [] [] [mkFn 120 [w_prop_sig (Named (NP id_int))] KProp false false false []]] [].
+Theorem unit_fixed_point_refuted : exists u u',
+  wf_unit u = true /\ parse_unit (print_unit u) = Some u' /\ print_unit u' <> print_unit u.
+Proof. exists w_unit_propconst, (norm_unit w_unit_propconst). vm_compute. repeat split; try reflexivity. discriminate. Qed.
+Print Assumptions unit_fixed_point_refuted.
+
+(* (i) `def __init__(self) -> Any` is re-read with return type None (pytd_return_type) *)
+Definition w_unit_init : unit_ :=
+  mkU [] [] [] [mkCls 110 [] [] [] None [] [] [mkFn id_init [w_prop_sig AnyT] KMethod false false false []]] [].
+Theorem unit_fixed_point_refuted_init : exists u u',
+  wf_unit u = true /\ parse_unit (print_unit u) = Some u' /\ print_unit u' <> print_unit u.
+Proof. exists w_unit_init, (norm_unit w_unit_init). vm_compute. repeat split; try reflexivity. discriminate. Qed.
+Print Assumptions unit_fixed_point_refuted_init.
+
+(* (j) why wf_alias excludes a target printed as `None`: the alias  x = None  is re-read as the constant  x: None *)
+Definition w_unit_alias_none : unit_ := mkU [] [(130%N, Named (NB id_NoneType))] [] [] [].
+Theorem alias_none_refuted : exists u u',
+  parse_unit (print_unit u) = Some u' /\ u_aliases u <> [] /\ u_aliases u' = [] /\ print_unit u' <> print_unit u.
+Proof. exists w_unit_alias_none, (norm_unit w_unit_alias_none). vm_compute. repeat split; try reflexivity; discriminate. Qed.
+Print Assumptions alias_none_refuted.
+
+(* one-line declarations are fixed points when their type is *)
+Theorem print_const_norm_partial : forall env c k, wf_const env k = true -> stable (ctx_plain c) (k_ty k) = true ->
+  print_const c (norm_const c k) = print_const c k.
+Proof.
+  intros env c k H Hs. unfold wf_const in H. apply andb_true_iff in H. destruct H as [_ Hw].
+  unfold print_const, norm_const. cbn [k_name k_ty k_val].
+  rewrite (print_norm_lemma env (ctx_plain c) (k_ty k) Hw Hs). reflexivity.
+Qed.
+Print Assumptions print_const_norm_partial.
+
+(* ---- non-vacuity: a unit with every kind of declaration meets wf_unit, and its printed form is visible ---- *)
+Definition ex_fsig : fsig :=
+  mkF (mkSig [mkParam id_self AnyT Regular false None;
+              mkParam 140 (Generic (NP 64) [TParam 100]) Regular false (Some (Generic (NP 64) [Named (NP id_int)]))]
+             None None (Named (NP id_NoneType)))
+      [Named (NP 150)].
+Definition ex_unit : unit_ :=
+  mkU [mkTP 102 103 [] (Some (Named (NP id_int))); mkTP 100 101 [Named (NP id_int); Named (NP id_str)] None]
+      [(131%N, Generic (NP 64) [Named (NP id_int)])]
+      [mkK 132 (Union [Named (NP id_int); Named (NP id_NoneType)]) true]
+      [mkCls 110 [Generic (NT 49) [TParam 100]] [(id_metaclass, Named (NP 111))] [id_final; id_final] (Some [160%N])
+             [mkCls 112 [Named (NP id_object)] [] [] None [] [] []]
+             [mkK 133 (Named (NP id_int)) false]
+             [mkFn 121 [ex_fsig; ex_fsig] KMethod true false false [];
+              mkFn id_new [mkF (mkSig [mkParam id_cls AnyT Regular false None] None None AnyT) []] KStatic false false false []]]
+      [mkFn 122 [mkF (mkSig [] None None (Named (NP id_int))) []] KMethod false false true [170%N]].
+Example ex_unit_wf : wf_unit ex_unit = true.
+Proof. vm_compute. reflexivity. Qed.
+Example ex_unit_roundtrip : parse_unit (print_unit ex_unit) = Some (norm_unit ex_unit) /\ norm_unit ex_unit <> ex_unit.
+Proof. vm_compute. split; [reflexivity|discriminate]. Qed.
+Example ex_unit_print : print_unit ex_unit =
+  [SLine [TName 100; TEq; TName id_TypeVar; TLPar; TStr 101; TComma; TName id_int; TComma; TName id_str; TRPar];
+   SLine [TName 102; TEq; TName id_TypeVar; TLPar; TStr 103; TComma; TName id_bound; TEq; TName id_int; TRPar];
+   SBlank;
+   SLine [TName 131; TEq; TName 64; TLBr; TName id_int; TRBr];
+   SBlank;
+   SLine [TName 132; TColon; TName id_Optional; TLBr; TName id_int; TRBr; TEq; TEllipsis];
+   SBlank;
+   SLine [TName id_at; TName id_final];
+   SClass [TName id_class; TName 110; TLPar; TName 49; TLBr; TName 100; TRBr; TComma; TName id_metaclass; TEq; TName 111; TRPar; TColon]
+     [SLine [TName id_slots; TEq; TLBr; TStr 160; TRBr];
+      SLine [TName id_class; TName 112; TColon; TEllipsis];
+      SLine [TName 133; TColon; TName id_int];
+      SLine [TName id_at; TName id_abstractmethod]; SLine [TName id_at; TName id_overload];
+      SLine [TName id_def; TName 121; TLPar; TName id_self; TComma; TName 140; TColon; TName 64; TLBr; TName 100; TRBr; TRPar; TArrow; TNone; TColon;
+             TNewline; TName 140; TEq; TName 64; TLBr; TName id_int; TRBr; TNewline; TName id_raise; TName 150; TLPar; TRPar];
+      SLine [TName id_at; TName id_abstractmethod]; SLine [TName id_at; TName id_overload];
+      SLine [TName id_def; TName 121; TLPar; TName id_self; TComma; TName 140; TColon; TName 64; TLBr; TName 100; TRBr; TRPar; TArrow; TNone; TColon;
+             TNewline; TName 140; TEq; TName 64; TLBr; TName id_int; TRBr; TNewline; TName id_raise; TName 150; TLPar; TRPar];
+      SLine [TName id_def; TName id_new; TLPar; TName id_cls; TRPar; TArrow; TName id_Any; TColon; TEllipsis]];
+   SBlank;
+   SLine [TName id_at; TName 170]; SLine [TName id_at; TName id_final];
+   SLine [TName id_def; TName 122; TLPar; TRPar; TArrow; TName id_int; TColon; TEllipsis]].
+Proof. vm_compute. reflexivity. Qed.
